@@ -453,7 +453,7 @@ def minimise(case, violation):
 
 
 def selftest_cases(n):
-    return [gen_case(150_000 + i) for i in range(n)]
+    return [gen_case(150_000 + i) for i in range(n)] + [gen_sequence(151_000 + i) for i in range(n // 3)] + [gen_unreadable(152_000 + i) for i in range(n // 10)]
 
 
 def main(argv=None):
